@@ -142,6 +142,9 @@ func (j recordJSON) ToNode() (ast.Node, error) {
 	var nodes ast.Pairs
 	for _, k := range slices.Sorted(maps.Keys(j)) {
 		v := j[k]
+		if v == nil {
+			return ast.Node{}, fmt.Errorf("error in record: missing value for key %q", k)
+		}
 		n, err := v.ToNode()
 		if err != nil {
 			return ast.Node{}, fmt.Errorf("error in record: %w", err)
